@@ -70,8 +70,8 @@ var c15seqgen = xt.GenCfg{Names: []string{"a", "b", "x-y"}, Prefixes: []string{"
 func stdFirstDoc(b []byte) (accept bool, leading string, why string) {
 	d := xml.NewDecoder(bytes.NewReader(b))
 	if c15custom != nil {
-		// "the underlying tokenizer" is the one the caller configured through CustomDecoder
-		d.Strict, d.AutoClose, d.Entity = c15custom.Strict, c15custom.AutoClose, c15custom.Entity
+		// "the underlying tokenizer" is the one the caller configured through CustomDecoder / XmlCharsetReader
+		d.Strict, d.AutoClose, d.Entity, d.CharsetReader = c15custom.Strict, c15custom.AutoClose, c15custom.Entity, c15custom.CharsetReader
 	}
 	depth := 0
 	started := false
@@ -344,6 +344,69 @@ func head(s string, n int) string {
 	return s
 }
 
+// latin1Reader converts ISO-8859-1 to UTF-8; it implements Read only (what a charset package hands to
+// xml.Decoder.CharsetReader) and converts at most a few bytes per call.
+type latin1Reader struct {
+	src  io.Reader
+	pend []byte
+}
+
+func (l *latin1Reader) Read(p []byte) (int, error) {
+	if len(p) == 0 {
+		return 0, nil
+	}
+	if len(l.pend) == 0 {
+		var b [3]byte
+		n, err := l.src.Read(b[:])
+		for _, ch := range b[:n] {
+			if ch < 0x80 {
+				l.pend = append(l.pend, ch)
+			} else {
+				l.pend = append(l.pend, 0xc0|ch>>6, 0x80|ch&0x3f)
+			}
+		}
+		if n == 0 {
+			return 0, err
+		}
+	}
+	n := copy(p, l.pend)
+	l.pend = l.pend[n:]
+	return n, nil
+}
+
+func c15charsetReader(label string, input io.Reader) (io.Reader, error) {
+	switch strings.ToLower(label) {
+	case "iso-8859-1", "latin1", "latin-1":
+		return &latin1Reader{src: input}, nil
+	}
+	return nil, fmt.Errorf("unsupported charset %q", label)
+}
+
+// c15charset: documents in a declared non-UTF-8 encoding, with a charset reader installed (through XmlCharsetReader or
+// through CustomDecoder); the reference tokenizer gets the same reader.
+func c15charset(c *core.Ctx) {
+	r := c.R
+	mxj.CustomDecoder = nil // (the case may have set one without a charset reader; XmlCharsetReader is ignored then)
+	if r.Intn(2) == 0 {
+		mxj.XmlCharsetReader = c15charsetReader
+	} else {
+		mxj.CustomDecoder = &xml.Decoder{Strict: true, CharsetReader: c15charsetReader}
+	}
+	c15custom = &xml.Decoder{Strict: true, CharsetReader: c15charsetReader}
+	defer func() { c15custom = nil }()
+	c.Count("special:declared-charset")
+	docs := [][]byte{
+		[]byte("<?xml version=\"1.0\" encoding=\"ISO-8859-1\"?><a b=\"caf\xe9\">na\xefve \xfcber<c>\xe9</c></a>"),
+		[]byte("<?xml version='1.0' encoding='latin1'?>\n<r><k>\xe4\xf6\xfc</k><k>plain</k></r>"),
+		[]byte("<?xml version=\"1.0\" encoding=\"ISO-8859-1\"?><a>" + strings.Repeat("\xe9x", 40+r.Intn(60)) + "</a>"),
+		[]byte("<?xml version=\"1.0\" encoding=\"koi8-r\"?><a>x</a>"),
+		[]byte("<?xml version=\"1.0\" encoding=\"ISO-8859-1\"?><a>\xe9</b>"),
+	}
+	for _, d := range docs {
+		c15xmlInput(c, d, true)
+	}
+}
+
 // c15deepJSON: objects / lists nested to depths around the limits a depth counter may have (int8, uint8, encoding/json's 10000).
 func c15deepJSON(c *core.Ctx) {
 	r := c.R
@@ -545,7 +608,10 @@ func c15args(c *core.Ctx) {
 func c15special(c *core.Ctx) {
 	r := c.R
 	var docs [][]byte
-	switch r.Intn(7) {
+	switch r.Intn(8) {
+	case 7:
+		c15charset(c)
+		return
 	case 6:
 		c15deepJSON(c)
 		return
